@@ -17,6 +17,7 @@ from xdsl.traits import is_side_effect_free
 from snaxc.dialects import accfg
 from snaxc.inference.helpers import (
     get_initial_value_for_scf_for_lcv,
+    has_accfg_effects,
     val_is_defined_in_block,
 )
 from snaxc.inference.trace_acc_state import all_setup_ops_in_region, infer_state_of
@@ -113,6 +114,11 @@ class PullSetupOpsOutOfLoops(RewritePattern):
         if op.in_state is None or op.in_state.owner != loop_op.body.block:
             return
 
+        # if the loop body may clobber the accelerator state, nothing is known at the
+        # loop head after the first iteration, so hoisting can never remove a field
+        if has_accfg_effects(loop_op):
+            return
+
         # iterate over all setups inside this loop and check if their values are loop-invariant or not
         # loop invariant values
         safe_values: set[str] = set()
@@ -183,6 +189,21 @@ class HoistSetupCallsIntoConditionals(RewritePattern):
         # grab some helper vars
         old_in_state = op.in_state
         assert isinstance(old_in_state, OpResult)
+
+        # Step 0: The setup must run exactly once after the scf.if (same block), and all values
+        # it writes must already be available inside the branches (defined before the scf.if)
+        if_op = old_in_state.owner
+        parent_block = op.parent_block()
+        if parent_block is None or parent_block is not if_op.parent_block():
+            return
+        if_index = parent_block.get_operation_index(if_op)
+        for val in op.values:
+            if (
+                isinstance(val, OpResult)
+                and val.owner.parent_block() is parent_block
+                and parent_block.get_operation_index(val.owner) > if_index
+            ):
+                return
 
         # Step 1: Check that it's legal to move:
         # grab all launch op uses of the SSA value produced by the scf.if
